@@ -74,7 +74,12 @@ impl NTTTables {
     pub fn new(coeff_count_power: usize, modulus: &Modulus) -> Result<Self, &str> {
         let coeff_count = (1 << coeff_count_power) as usize;
         let modulus = *modulus;
-        // We defer parameter checking to try_minimal_primitive_root(...)
+        // The root search below (and the enumeration of the minimal root) is only meaningful in a prime field;
+        // for a composite modulus its outcome would depend on the random candidates it draws.
+        if !modulus.is_prime() {
+            return Err("[Invalid argument] Invalid modulus.");
+        }
+        // We defer the remaining parameter checking to try_minimal_primitive_root(...)
         let mut root: u64 = 0;
         if !util::try_minimal_primitive_root(2 * coeff_count as u64, &modulus, &mut root) {
             return Err("[Invalid argument] Invalid modulus.");
